@@ -2581,3 +2581,82 @@ func fromOperationValue(v ssa.Value, d int) bool {
 	}
 	return false
 }
+
+// optionsHandedOn (R-ESCSET, codec): the encoders hand the options they were given on to the
+// encoders they call. Every argument of the options type in a function that has an options
+// parameter is that parameter, or a local copy of it in which the escaping switch was not
+// written. A fresh options value ("the ,string option is not handed down to elements") drops
+// the switch with it: with EscapeHTML on, strings inside arrays come out unescaped.
+func (b *Body) optionsHandedOn(l *Ledger) {
+	if b.Codec == nil {
+		return
+	}
+	key := "encoders hand the options they were given on to the encoders they call (the escaping switch is never dropped on the way)"
+	n := 0
+	bad := ""
+	for _, fn := range b.srcFuncs(b.Codec) {
+		var param *ssa.Parameter
+		for _, p := range fn.Params {
+			if isNamed(p.Type(), "encOpts") {
+				param = p
+			}
+		}
+		if param == nil {
+			continue
+		}
+		okArg := func(v ssa.Value) bool {
+			if v == ssa.Value(param) {
+				return true
+			}
+			ld, ok := v.(*ssa.UnOp)
+			if !ok || ld.Op != token.MUL {
+				return false
+			}
+			al, ok := ld.X.(*ssa.Alloc)
+			if !ok || al.Referrers() == nil {
+				return false
+			}
+			fromParam := false
+			for _, r := range *al.Referrers() {
+				switch x := r.(type) {
+				case *ssa.Store:
+					if x.Addr == ssa.Value(al) {
+						if x.Val != ssa.Value(param) {
+							return false
+						}
+						fromParam = true
+					}
+				case *ssa.FieldAddr:
+					if fieldOfAddr(x).Field == "escapeHTML" && x.Referrers() != nil {
+						for _, r2 := range *x.Referrers() {
+							if _, isSt := r2.(*ssa.Store); isSt {
+								return false
+							}
+						}
+					}
+				}
+			}
+			return fromParam
+		}
+		allInstrs(fn, func(i ssa.Instruction) {
+			ci, ok := i.(ssa.CallInstruction)
+			if !ok {
+				return
+			}
+			for _, a := range ci.Common().Args {
+				if !isNamed(a.Type(), "encOpts") {
+					continue
+				}
+				n++
+				if !okArg(a) {
+					bad = "the options handed on at " + b.posOf(i) + " in " + fname(fn) + " are " + describeValue(a) + ", not the options this encoder was given: the HTML-escaping switch of the call is lost for everything below"
+				}
+			}
+		})
+	}
+	if bad != "" {
+		l.add("R-ESCSET", "codec", key, "", Violated, bad, true)
+	} else if n > 0 {
+		l.add("R-ESCSET", "codec", key, "", Discharged, fmt.Sprintf("%d call(s) that pass options on, each the parameter itself or a local copy of it with the switch untouched", n), true)
+	}
+}
